@@ -140,6 +140,8 @@ def _expected_cells(t, nullval):
                 row.append(float(render(c["canon"])))
             elif c["k"] == "null":
                 row.append(float(nullval))
+            elif c["k"] == "missing":   # the missing-data token: NaN
+                row.append(float("nan"))
             else:  # DROPped column: raw text; padding of a dropped column is not judged
                 row.append(("text", render(c["canon"]) if c["canon"] else None))
         rows.append(row)
@@ -269,6 +271,7 @@ def filter_check(arg):
     from pharmpy.model.external.nonmem.dataset import read_nonmem_dataset
 
     res = case["result"]
+    back = None
     text = "\n".join(",".join(render(it) for it in row) for row in case["table"]) + "\n"
     filters = [f"C{f['col']}{OPS[f['op']][0]}{render(f['val'])}" for f in case["filters"]]
     drop = [case["drop"] == 1, False]
@@ -294,7 +297,21 @@ def filter_check(arg):
                 code = f"$PROBLEM c13\n$INPUT {'C1=DROP' if drop[0] else 'C1'} C2\n$DATA data.csv{opts}\n" + MODEL_TAIL
                 (dd / "run.mod").write_text(code)
                 rec["control_stream"] = code
-                df = read_model(dd / "run.mod").dataset
+                model = read_model(dd / "run.mod")
+                df = model.dataset
+                if var.get("write") and len(df) >= 1:
+                    # write/read law on a model that carries the list and whose first read already filtered:
+                    # write_csv + write_model, then the generated code must read back the model's dataset
+                    from pharmpy.modeling import write_csv, write_model
+
+                    rec["stage"] = "write"
+                    # class of the input: the first column holds text that starts with a letter (a DROPped column is kept as text)
+                    rec["first_column_text_starts_with_letter"] = any(str(x)[:1].isalpha() for x in df.iloc[:, 0])
+                    m2 = write_csv(model, path=dd / "out.csv", force=True)
+                    write_model(m2, dd / "out.mod", force=True)
+                    gen = (dd / "out.mod").read_text()
+                    rec["generated_data_record"] = next((ln for ln in gen.splitlines() if ln.startswith("$DATA")), "")
+                    back = read_model(dd / "out.mod").dataset
             finally:
                 shutil.rmtree(dd, ignore_errors=True)
     except DatasetError as e:
@@ -317,6 +334,10 @@ def filter_check(arg):
     if all(errs):
         rec["outcome"] = errs[0][0]
         return ("violation", rec, f"{case['fmode']} {filters} on {text!r}: {errs[0][1]}; frame {df.to_numpy().tolist()} expected {admitted}")
+    if back is not None and not back.equals(df):
+        rec["outcome"] = "written_not_equal"
+        return ("violation", rec, f"model with {case['fmode']} {filters} on {text!r}: dataset {df.to_numpy().tolist()}, after write_csv + write_model the generated "
+                                  f"code ({rec['generated_data_record']!r}) reads back {back.to_numpy().tolist()}")
     return ("ok", rec, None)
 
 
@@ -407,7 +428,7 @@ def run(tier, seed, v, cases):
     import pharmpy.model.external.nonmem.dataset  # noqa: F401
 
     rng = random.Random(seed)
-    budget = {"quick": dict(lex_raw=5000, lex_model=260, flt_raw=1500, flt_model=140, write=160),
+    budget = {"quick": dict(lex_raw=5000, lex_model=260, flt_raw=1500, flt_model=170, write=160),
               "thorough": dict(lex_raw=120000, lex_model=6000, flt_raw=30000, flt_model=3000, write=2500)}[tier]
     scale = float(os.environ.get("VERIF_BUDGET_SCALE", "1"))   # only for trying the pipeline on a busy machine
     budget = {k: max(1, int(b * scale)) for k, b in budget.items()}
@@ -436,8 +457,12 @@ def run(tier, seed, v, cases):
     rng.shuffle(flt)
     for c in flt[: budget["flt_raw"]]:
         work.append(("filter", (c, {"path": "raw"})))
-    for c in flt[: budget["flt_model"]]:
-        work.append(("filter", (c, {"path": "model", "one_list": rng.random() < 0.5})))
+    # through a generated control stream, followed by write_csv + write_model + read_model; half of the budget for the cases
+    # in which the specification predicts that a retained list would change the rows again (result.sensitive)
+    okc = [c for c in flt if c["result"]["outcome"] == "ok" and c["result"]["rows"]]
+    sens = [c for c in okc if c["result"]["sensitive"]][: budget["flt_model"] // 2]
+    for c in sens + flt[: budget["flt_model"] - len(sens)]:
+        work.append(("filter", (c, {"path": "model", "write": True, "one_list": rng.random() < 0.5})))
     wr = list(cases["wr_ex"])
     rng.shuffle(wr)
     for c in wr[: budget["write"]]:
@@ -476,7 +501,8 @@ def main(tier: str, seed: int) -> int:
         "reference = docs/NONMEM.rst; where it is silent the case is not judged: leading TAB, single trailing TAB, comma next to a TAB, "
         "files without data rows, strings over the legal characters that are not Fortran reals, numeric filters on NULL items, "
         "several ACCEPT conditions (both readings admitted), blanks without newline at the end of the file",
-        "TIME/DATE translation, BLANKOK, MISDAT/missing-data tokens, id renumbering are outside this specification (neutral column names are used)",
+        "TIME/DATE translation, BLANKOK, MISDAT, id renumbering are outside this specification (neutral column names are used); the missing-data token "
+        "(-99) is part of Filter.tla (a missing value under numeric operators, NaN in the frame) but not of the scanner alphabet",
     ]
     cases = tlc_all(tier, seed, v)
     run(tier, seed, v, cases)
